@@ -50,7 +50,7 @@ def jarfilePhrase : Str := Gen.c18JarfilePhrase.toList
 
 /-- a character of the class `[a-z0-9\-_]` under `re.I` (Unicode case folding adds U+0130, U+0131, U+017F, U+212A);
 the set is probed on the compiled `ERROR_MESSAGE_REGEX` by the translator. -/
-def isSeg (c : Char) : Bool := Gen.c18SegChars.contains c.toNat
+def isSeg (c : Char) : Bool := Gen.c18SegRanges.any (fun r => r.1 ≤ c.toNat && c.toNat ≤ r.2)
 
 /-- Tokens of the scan for `ERROR_MESSAGE_REGEX = (/seg+(?:/seg+)+)`: `unit s` is a `/` followed by the maximal
 run `s` of segment characters, `run s` a maximal run of segment characters not preceded by `/`, `ch c` any other
@@ -231,6 +231,7 @@ inductive Form where
   | early (msg : Str)     -- PyXFormError from workbook_to_json / the builder: before `to_xml` is entered
   | late (msg : Str)      -- PyXFormError while rendering inside `print_xform_to_file` (the temp file exists)
   | unencodable (msg : Str) -- rendering succeeds, writing the text raises (lone surrogate): `except` branch of print_xform_to_file
+  | diskFault (msg : Str)   -- rendering succeeds, `open`/`write` of the temp file raises OSError (disk full, file vanished): same branch
   | ok (ugly pretty : Str) (itemsets : Option Str) (preW postW : List Str)
   deriving Repr, DecidableEq
 
@@ -247,6 +248,9 @@ def printXformToFile (form : Form) (path : Path) (validate pretty : Bool) (env :
   | .unencodable m =>
     -- `open(path, "w")` truncates, `write` raises; `except Exception: if exists: unlink; raise`
     ⟨FS.unlink (FS.write fs path []) path, [], .error (.encode m)⟩
+  | .diskFault m =>
+    -- the same `except Exception` branch with an OSError: whatever was created or partly written is unlinked
+    ⟨FS.unlink (FS.write fs path []) path, [], .error (.osError m)⟩
   | .ok ugly prettyX _ _ postW =>
     let xml := if pretty then prettyX else ugly
     let fs1 := FS.write fs path xml
